@@ -61,6 +61,14 @@ def c12_scenarios(r, tier):
                     # running instances: still held under its name, consistent and usable
                     lines += ["holds %s" % hx(acct), "relations %s" % hx(acct), "use %s" % hx(acct)]
                 out.append(("n=%d t=%d ids=%s" % (n, t, kind), lines))
+    # every instance has its OWN view of how the other peers are reached (same ids and names, other ports — forwarded ports,
+    # alternative listeners): the participant list every participant stores is the ONE the initiator selected and returns
+    for n_, t_, ids_ in ((3, 2, [1, 2, 3]), (4, 3, [1, 2, 3, 4]), (3, 3, [7, 8, 9])):
+        for ini_ in (ids_[0], ids_[-1]):
+            k += 1
+            acct = "DW/v%d" % k
+            out.append(("peer-views n=%d t=%d ini=%d" % (n_, t_, ini_), ["cluster %s 0 views" % ",".join(str(i) for i in ids_), gen_line(ini_, acct, t_, n_), "holds %s" % hx(acct),
+                                                                      "relations %s" % hx(acct), "use %s" % hx(acct), "recover %s" % hx(acct)]))
     # other refusals: unknown / forbidden client, nd wallet, more participants than peers, tampered commit replies
     ids = [1, 2, 3]
     out.append(("forbidden-client", [cluster_line(ids), gen_line(1, "DW/x1", 2, 3, client="client2"), "holds %s" % hx("DW/x1"),
